@@ -165,10 +165,12 @@ pub struct Sub<C> {
 pub trait DynSub: Send + Sync {
     fn name(&self) -> &'static str;
     fn run_generated(&self, ctx: &Ctx, watch: &Watchdog) -> SubReport;
+    /// worker side: run the given shards sequentially in this process
+    fn run_shards(&self, ctx: &Ctx, watch: &Watchdog, shards: &[(u32, u32)]) -> SubReport;
     fn replay(&self, ctx: &Ctx, case: &Value) -> Result<Outcome, String>;
 }
 
-#[derive(Debug, Default, Clone)]
+#[derive(Debug, Default, Clone, Serialize, Deserialize)]
 pub struct SubReport {
     pub name: String,
     pub evaluations: u64,
@@ -182,6 +184,12 @@ pub struct SubReport {
     /// (message, shrunk case)
     pub violations: Vec<(String, Value)>,
     pub rejected: u64,
+    #[serde(default)]
+    pub worker_failures: u64,
+    #[serde(default)]
+    pub lib_panics: u64,
+    #[serde(default)]
+    pub panic_log: Vec<String>,
 }
 
 thread_local! {
@@ -361,8 +369,23 @@ where
         })
     }
 
-    fn run_generated(&self, ctx: &Ctx, watch: &Watchdog) -> SubReport {
-        let total = ctx.tier.pick(self.cases_quick, self.cases_thorough);
+    fn run_shards(&self, ctx: &Ctx, watch: &Watchdog, shards: &[(u32, u32)]) -> SubReport {
+        let mut report = SubReport {
+            name: self.name.to_string(),
+            ..SubReport::default()
+        };
+        for (shard, cases) in shards {
+            let r = self.run_shard(ctx, watch, *shard, *cases);
+            merge_report(&mut report, r);
+        }
+        report
+    }
+
+    fn run_generated(&self, ctx: &Ctx, _watch: &Watchdog) -> SubReport {
+        let total = std::env::var("VP_CASES")
+            .ok()
+            .and_then(|s| s.parse().ok())
+            .unwrap_or_else(|| ctx.tier.pick(self.cases_quick, self.cases_thorough));
         let mut report = SubReport {
             name: self.name.to_string(),
             ..SubReport::default()
@@ -370,65 +393,108 @@ where
         if total == 0 {
             return report;
         }
-        let nthreads = threads() as u32;
         // shards are a function of the case count only, never of the machine
-        let shards = if total >= 64 { 32 } else { total.min(8).max(1) };
+        let shards: u32 = if total >= 64 { 64 } else { total.min(8).max(1) };
         let per = total / shards;
         let extra = total % shards;
-        let next_shard = AtomicUsize::new(0);
-        let reports: Mutex<Vec<(u32, SubReport)>> = Mutex::new(Vec::new());
-        std::thread::scope(|s| {
-            for t in 0..nthreads.min(shards) {
-                let next_shard = &next_shard;
-                let reports = &reports;
-                _ = std::thread::Builder::new()
-                    .name(format!("{}-{}-w{t}", ctx.prop, self.name))
-                    .stack_size(16 << 20)
-                    .spawn_scoped(s, move || {
-                        loop {
-                            let shard = next_shard.fetch_add(1, Ordering::SeqCst) as u32;
-                            if shard >= shards {
-                                break;
-                            }
-                            let cases = per + u32::from(shard < extra);
-                            if cases == 0 {
-                                continue;
-                            }
-                            let r = self.run_shard(ctx, watch, shard, cases);
-                            reports.lock().unwrap().push((shard, r));
+        let plan: Vec<(u32, u32)> = (0..shards)
+            .map(|s| (s, per + u32::from(s < extra)))
+            .filter(|(_, c)| *c > 0)
+            .collect();
+        // Worker *processes*, not threads: every end-to-end case makes the library spawn ~150
+        // short-lived threads, and thread stack map/unmap in one big process costs a TLB
+        // shootdown on every core. Separate address spaces make that local and also isolate the
+        // library's global state (rayon pool) per worker.
+        let nworkers = threads().min(plan.len());
+        let exe = std::env::current_exe().expect("own path");
+        let mut children = Vec::new();
+        for w in 0..nworkers {
+            let mine: Vec<String> = plan
+                .iter()
+                .skip(w)
+                .step_by(nworkers)
+                .map(|(s, c)| format!("{s}:{c}"))
+                .collect();
+            let child = std::process::Command::new(&exe)
+                .arg("worker")
+                .arg(ctx.prop)
+                .arg(self.name)
+                .arg(ctx.tier.name())
+                .arg(ctx.seed.to_string())
+                .arg(mine.join(","))
+                .env(
+                    "RAYON_NUM_THREADS",
+                    std::env::var("RAYON_NUM_THREADS").unwrap_or_else(|_| "4".into()),
+                )
+                .stdin(std::process::Stdio::null())
+                .stdout(std::process::Stdio::piped())
+                .stderr(std::process::Stdio::inherit())
+                .spawn()
+                .expect("spawn worker");
+            children.push(child);
+        }
+        for child in children {
+            let outp = child.wait_with_output().expect("worker output");
+            let text = String::from_utf8_lossy(&outp.stdout);
+            let mut got = false;
+            for line in text.lines() {
+                if let Some(js) = line.strip_prefix("REPORT ") {
+                    match serde_json::from_str::<SubReport>(js) {
+                        Ok(r) => {
+                            merge_report(&mut report, r);
+                            got = true;
                         }
-                    })
-                    .expect("spawn worker");
-            }
-        });
-        let mut reports = reports.into_inner().unwrap();
-        reports.sort_by_key(|(s, _)| *s);
-        for (_, r) in reports {
-            report.evaluations += r.evaluations;
-            report.nontrivial_hashes.extend(r.nontrivial_hashes);
-            for (k, v) in r.classes {
-                *report.classes.entry(k).or_default() += v;
-            }
-            for (k, v) in r.counters {
-                *report.counters.entry(k).or_default() += v;
-            }
-            for (k, v) in r.excluded {
-                *report.excluded.entry(k).or_default() += v;
-            }
-            for (k, v) in r.skipped {
-                *report.skipped.entry(k).or_default() += v;
-            }
-            report.panics += r.panics;
-            report.rejected += r.rejected;
-            for s in r.samples {
-                if report.samples.len() < 3 {
-                    report.samples.push(s);
+                        Err(e) => println!("INCONCLUSIVE property={} worker report unreadable: {e}", ctx.prop),
+                    }
+                } else if !line.is_empty() {
+                    println!("{line}");
                 }
             }
-            report.violations.extend(r.violations);
+            if !got {
+                println!(
+                    "INCONCLUSIVE property={} sub={} a worker ended without a report (status {:?})",
+                    ctx.prop,
+                    self.name,
+                    outp.status.code()
+                );
+                report.rejected += 1;
+                report.worker_failures += 1;
+            }
         }
         report
     }
+}
+
+pub fn merge_report(report: &mut SubReport, r: SubReport) {
+    report.evaluations += r.evaluations;
+    report.nontrivial_hashes.extend(r.nontrivial_hashes);
+    for (k, v) in r.classes {
+        *report.classes.entry(k).or_default() += v;
+    }
+    for (k, v) in r.counters {
+        *report.counters.entry(k).or_default() += v;
+    }
+    for (k, v) in r.excluded {
+        *report.excluded.entry(k).or_default() += v;
+    }
+    for (k, v) in r.skipped {
+        *report.skipped.entry(k).or_default() += v;
+    }
+    report.panics += r.panics;
+    report.rejected += r.rejected;
+    report.worker_failures += r.worker_failures;
+    report.lib_panics += r.lib_panics;
+    for l in r.panic_log {
+        if report.panic_log.len() < 10 {
+            report.panic_log.push(l);
+        }
+    }
+    for s in r.samples {
+        if report.samples.len() < 3 {
+            report.samples.push(s);
+        }
+    }
+    report.violations.extend(r.violations);
 }
 
 impl<C> Sub<C>
@@ -442,6 +508,9 @@ where
             cases,
             failure_persistence: None,
             max_shrink_iters: self.max_shrink_iters,
+            // shrinking stops after this much time per failing shard (ms): only the minimality of the
+            // replay file depends on it, never the verdict
+            max_shrink_time: 45_000,
             max_global_rejects: 1 << 20,
             rng_seed: RngSeed::Fixed(u64::from_le_bytes(
                 mix(ctx.seed, ctx.prop, self.name, shard)[..8].try_into().unwrap(),
@@ -593,6 +662,27 @@ pub fn replay_file(spec: &PropSpec, ctx: &Ctx, path: &Path) -> Result<Option<Str
     Ok(out.failure)
 }
 
+/// worker process entry: run the listed shards of one sub and print the report
+pub fn run_worker(spec: &PropSpec, sub: &str, seed: u64, tier: Tier, shards: &[(u32, u32)]) -> i32 {
+    let known = Arc::new(KnownFindings::load());
+    let ctx = Ctx {
+        prop: spec.id,
+        seed,
+        tier,
+        known,
+        strict: false,
+    };
+    let watch = Watchdog::start(spec.id, tier);
+    let Some(sub) = spec.subs.iter().find(|s| s.name() == sub) else {
+        return 2;
+    };
+    let mut r = sub.run_shards(&ctx, &watch, shards);
+    r.lib_panics = panic_count();
+    r.panic_log = panic_log().into_iter().take(5).collect();
+    println!("REPORT {}", serde_json::to_string(&r).expect("report serialises"));
+    0
+}
+
 pub struct RunResult {
     pub exit: i32,
 }
@@ -736,8 +826,8 @@ pub fn run_property(spec: &PropSpec, seed: u64, tier: Tier) -> RunResult {
             "samples": samples,
             "replayed_files": replayed,
             "subs": subs_json,
-            "library_panics_observed_total": panic_count(),
-            "panic_log_head": panic_log().into_iter().take(10).collect::<Vec<_>>(),
+            "library_panics_observed_total": sub_reports.iter().map(|r| r.lib_panics).sum::<u64>() + panic_count(),
+            "panic_log_head": sub_reports.iter().flat_map(|r| r.panic_log.iter().cloned()).take(10).collect::<Vec<_>>(),
             "known_findings_reported": known_lines,
             "notes": notes,
             "extra": extra_cov,
@@ -778,6 +868,11 @@ pub fn run_property(spec: &PropSpec, seed: u64, tier: Tier) -> RunResult {
             r.skipped,
             r.classes
         );
+    }
+    let worker_failures: u64 = sub_reports.iter().map(|r| r.worker_failures).sum();
+    if violations.is_empty() && worker_failures > 0 {
+        println!("INCONCLUSIVE property={} {} worker(s) did not finish", spec.id, worker_failures);
+        return RunResult { exit: 2 };
     }
     if violations.is_empty() {
         RunResult { exit: 0 }
